@@ -92,7 +92,10 @@ fn check(r: &ExecResult, pol: Pol, cap: usize, parked: bool, via_dispatcher: boo
 
 pub fn scenarios(tier: Tier) -> Vec<Scenario> {
     let mut v = vec![];
-    let mut add_x = |pol: Pol, cap: usize, n: usize, np: u32, via: bool, parked: bool, race: bool, bound: u32| {
+    // race: 0 stop after the producers, 1 stop racing them, 2 "abandon": no stop at all, the last
+    // handle is released while the burst is still queued (the reducer context keeps the store
+    // going; it is left waiting for actions, which is the only unfinished task allowed)
+    let mut add_x = |pol: Pol, cap: usize, n: usize, np: u32, via: bool, parked: bool, race: u8, bound: u32| {
         let mut spec = StoreSpec::new(1, cap, pol);
         spec.reducer_gate = parked;
         let mut prog = Program::new(spec);
@@ -109,7 +112,9 @@ pub fn scenarios(tier: Tier) -> Vec<Scenario> {
                 .collect();
             prog = prog.thread(&format!("p{}", p), ops);
         }
-        let main = if parked {
+        let main = if parked && race == 2 {
+            vec![Op::Dispatch(Act::new(PLUG)), Op::Quiesce, Op::SpawnAll, Op::JoinAll, Op::Quiesce, Op::OpenGate(0, n + 2)]
+        } else if parked {
             vec![
                 Op::Dispatch(Act::new(PLUG)),
                 Op::Quiesce,
@@ -121,21 +126,42 @@ pub fn scenarios(tier: Tier) -> Vec<Scenario> {
                 Op::Stop,
                 Op::GetMetrics(0),
             ]
-        } else if race {
+        } else if race == 2 {
+            vec![Op::SpawnAll, Op::JoinAll]
+        } else if race == 1 {
             vec![Op::SpawnAll, Op::Stop, Op::JoinAll, Op::GetMetrics(0)]
         } else {
             vec![Op::SpawnAll, Op::JoinAll, Op::Stop, Op::GetMetrics(0)]
         };
         prog = prog.main(main);
         v.push(scn(
-            format!("C06/{}/{}cap{}n{}P{}{}{}", if parked { "parked" } else { "free" }, pol.s(), cap, n, np, if via { "via" } else { "" }, if race { "race" } else { "" }),
+            format!("C06/{}/{}cap{}n{}P{}{}{}", if parked { "parked" } else { "free" }, pol.s(), cap, n, np, if via { "via" } else { "" }, ["", "race", "abandon"][race as usize]),
             prog,
             bound,
             opts_elide(),
-            move |r, _| check(r, pol, cap, parked, via),
+            move |r, _| {
+                let mut f = check(r, pol, cap, parked, via);
+                if race == 2 {
+                    f.retain(|x| x.sig != "stuck:internal@recv(dispatch)");
+                    // nobody stops the store: everything admitted is reduced by the end
+                    let p = pipe(r);
+                    let burst: Vec<u32> = rets(r, "dispatch").filter(|d| d.a as u32 != PLUG).map(|d| d.a as u32).collect();
+                    let reduced = p.order.iter().filter(|a| **a != PLUG).count();
+                    if !parked {
+                        let admitted = rets(r, "dispatch").filter(|d| d.a as u32 != PLUG && d.ok).count();
+                        // no eviction is possible when the burst fits, and DropLatest reports
+                        // every discarded action through the Dispatcher interface
+                        let exact = burst.len() <= cap || (pol == Pol::Latest && via);
+                        if (exact && reduced != admitted) || (reduced == 0 && !burst.is_empty()) {
+                            f.push(fnd("drop-admitted-not-reduced", format!("burst {:?}: {} admitted, but {} reduced after the last handle was released", burst, admitted, reduced)));
+                        }
+                    }
+                }
+                f
+            },
         ));
     };
-    let mut add = |pol: Pol, cap: usize, n: usize, np: u32, via: bool, parked: bool, bound: u32| add_x(pol, cap, n, np, via, parked, false, bound);
+    let mut add = |pol: Pol, cap: usize, n: usize, np: u32, via: bool, parked: bool, bound: u32| add_x(pol, cap, n, np, via, parked, 0, bound);
     for pol in [Pol::Oldest, Pol::Latest] {
         match tier {
             Tier::Quick => {
@@ -166,11 +192,22 @@ pub fn scenarios(tier: Tier) -> Vec<Scenario> {
     // stop() racing the producers: every dispatch that found the store open is still reduced
     // once or counted as dropped once
     for pol in [Pol::Oldest, Pol::Latest] {
-        add_x(pol, 1, 3, 2, false, false, true, 2);
+        add_x(pol, 1, 3, 2, false, false, 1, 2);
         if tier == Tier::Thorough {
-            add_x(pol, 2, 4, 2, false, false, true, 3);
-            add_x(pol, 1, 3, 3, false, false, true, 2);
-            add_x(pol, 1, 2, 1, false, false, true, 4);
+            add_x(pol, 2, 4, 2, false, false, 1, 3);
+            add_x(pol, 1, 3, 3, false, false, 1, 2);
+            add_x(pol, 1, 2, 1, false, false, 1, 4);
+        }
+    }
+    // the last handle is released without stop() while the burst is still queued
+    for pol in [Pol::Oldest, Pol::Latest] {
+        add_x(pol, 2, 3, 1, true, true, 2, 2);
+        add_x(pol, 2, 2, 1, true, false, 2, 2);
+        if tier == Tier::Thorough {
+            add_x(pol, 1, 3, 2, true, true, 2, 3);
+            add_x(pol, 3, 4, 2, false, true, 2, 3);
+            add_x(pol, 2, 3, 2, true, false, 2, 3);
+            add_x(pol, 1, 2, 1, false, false, 2, 4);
         }
     }
     v
